@@ -699,6 +699,15 @@ class VizierServicer(vizier_service_pb2_grpc.VizierServiceServicer):
       self.datastore.delete_trial(request.name)
     return empty_pb2.Empty()
 
+  def _finish_early_stopping_operation(
+      self, operation: vizier_oss_pb2.EarlyStoppingOperation
+  ) -> None:
+    """Stores the operation as DONE with the answer "do not stop"."""
+    operation.status = vizier_oss_pb2.EarlyStoppingOperation.Status.DONE
+    operation.should_stop = False
+    operation.completion_time.CopyFrom(_get_current_time())
+    self.datastore.update_early_stopping_operation(operation)
+
   # TODO: This currently uses the same algorithm as suggestion.
   @_report_lookup_errors
   def CheckTrialEarlyStoppingState(
@@ -843,24 +852,25 @@ class VizierServicer(vizier_service_pb2_grpc.VizierServiceServicer):
       except Exception:  # pylint: disable=broad-except
         # Don't leave the operation ACTIVE, otherwise every later check of this
         # trial would be answered from it without reaching Pythia again.
-        output_operation.status = (
-            vizier_oss_pb2.EarlyStoppingOperation.Status.DONE
-        )
-        output_operation.should_stop = False
-        output_operation.completion_time.CopyFrom(_get_current_time())
-        self.datastore.update_early_stopping_operation(output_operation)
+        self._finish_early_stopping_operation(output_operation)
         raise
       # Update metadata from result.
-      with self._study_name_to_lock[study_name]:
-        self.datastore.update_metadata(
-            study_name,
-            svz.metadata_util.make_key_value_list(
-                early_stopping_decisions.metadata.on_study
-            ),
-            svz.metadata_util.trial_metadata_to_update_list(
-                early_stopping_decisions.metadata.on_trials
-            ),
-        )
+      try:
+        with self._study_name_to_lock[study_name]:
+          self.datastore.update_metadata(
+              study_name,
+              svz.metadata_util.make_key_value_list(
+                  early_stopping_decisions.metadata.on_study
+              ),
+              svz.metadata_util.trial_metadata_to_update_list(
+                  early_stopping_decisions.metadata.on_trials
+              ),
+          )
+      except Exception:  # pylint: disable=broad-except
+        # An answer that cannot be applied must not leave the operation ACTIVE
+        # either.
+        self._finish_early_stopping_operation(output_operation)
+        raise
 
       # Pythia does not guarantee that the output_operation's id
       # will be in the decisions.
@@ -895,6 +905,13 @@ class VizierServicer(vizier_service_pb2_grpc.VizierServiceServicer):
       output_operation = self.datastore.get_early_stopping_operation(
           output_operation.name
       )
+      if (
+          output_operation.status
+          == vizier_oss_pb2.EarlyStoppingOperation.Status.ACTIVE
+      ):
+        # Pythia gave no decision for the requested trial: the answer is "do
+        # not stop", and the next check must reach Pythia again.
+        self._finish_early_stopping_operation(output_operation)
       return vizier_service_pb2.CheckTrialEarlyStoppingStateResponse(
           should_stop=output_operation.should_stop
       )
